@@ -104,11 +104,25 @@ PROPS = {
         explanation="PARTIAL. Proved in Lean: no function of any package writes a package-level variable (regenerated fact); in the slot-level ordered-map model every observer leaves the concrete state fixed and interleavings of observers give sequential answers. NOT expressible in the model and only exercised: goroutine interleavings and the Go memory model - rounds of 16 goroutines on distinct objects (results must equal the sequential run) and on shared read-only objects under the race detector; observers compared via VerifDump before/after.",
         assumptions=["data-race freedom is supported by dynamic race detection on the schedules met, not proved"],
     ),
+    "C03": dict(
+        level="proof", gen=True, corr_name="Parse + MarshalJSON normal form (driver mode parse)",
+        trusted_base=COMMON_TB + ["yaml.v3 scanner/parser/tag resolution/scalar decoding: the model starts at the decoded document tree (ordered.DecodeYAML output; alias/merge expansion is C07's subject)",
+                                 "struct descriptors and step-kind tables regenerated from the source (Gen/Structs, Gen/StepKinds); the parse model interprets them (Unm.taken / remainder)",
+                                 "encoding/json and the yaml.v3 emitter: the model ends at the value tree handed to the encoders; the harness re-decodes the real output order-preservingly and compares"] + ["typed-string positions take the four documented scalar kinds (string, int, float, bool); a timestamp / >int64 integer there is a hard error of the unmarshaller (scoping decision, DESIGN §7)",
+                                 "known gaps kept visible: both command and commands given (finding F7); unknown keys inside signature are dropped (no inline catch-all; F9)"],
+        explanation="Per-key normal-form theorems (bare list, command join, label/key aliases, other keys preserved exactly once, contents steps, scalar/unknown verbatim, plugins, env, matrix/cache shorthands) over regenerated descriptors; order-preserving normal-form correspondence on the real Parse + json.Marshal; documented-rule and key-preservation oracles on the implementation.",
+    ),
 }
 
 NOT_APPLICABLE = {}
 
 MANIFEST_TEXT = {
+    "C03": dict(
+        text="Kernel-checked proofs (Lean 4) about the composition of the parse model and the JSON marshalling model, both interpreting struct descriptors regenerated from the source: a bare step list becomes steps; command/commands collapse into one newline-joined command; name and id/identifier fill label and key only when those are absent (otherwise the alias stays an ordinary key); every other key of a command step appears in the marshalled step exactly once with its input value; wait/input/trigger mappings keep every key; scalar and unknown steps are emitted verbatim; plugins in all three forms become an ordered list of single-entry objects keyed by canonical source with empty configs as null; env scalars become strings in order; matrix and cache shorthands take their canonical shapes. Tied by order-preserving comparison of the model's normal form with the re-decoded real output on grammar-generated documents (block/flow YAML, JSON) and by rule/key-preservation oracles on the implementation. Recorded gaps: F7 (command + commands), F9 (unknown keys inside signature).",
+        design_ref="DESIGN.md §6 C03",
+        note="Trusted: Lean kernel; yaml.v3 up to the decoded tree and the encoders after the value tree; translators; the correspondence.",
+        technique="Lean 4 per-key normal-form theorems over regenerated struct descriptors + normal-form correspondence + rule oracles",
+    ),
     "C19": dict(
         text="PARTIAL, by design of the technique: a theorem about a sequential functional model cannot exhibit a data race. Proved (Lean 4): no function in any package assigns to a package-level variable (fact regenerated from source on every run); in the slot/tombstone/index model of the ordered map every observer is a function of the state returning no state, so any interleaving of observer calls leaves slots, tombstones and index unchanged and gives each call its sequential answer. Exercised, not proved: 16 goroutines parsing/interpolating/marshalling/signing/verifying distinct generated pipelines must reproduce the sequential digests; concurrent read-only use of one shared ordered map (with tombstones), signed pipeline and key set runs under the Go race detector and must give sequential answers; every observer must leave ordered.VerifDump unchanged on maps one deletion short of compaction.",
         design_ref="DESIGN.md §6 C19",
